@@ -1157,7 +1157,13 @@ func verifHookWorld(w *verifWorld) (postURL string, actorURL string, truth []ver
 			map[string]any{"type": "Document", "url": u("/att/untyped doc"), "name": "fifth"},
 			map[string]any{"type": "Document", "url": "https://CDN.Example.ORG/Videos/Clip.mp4?X-Sig=AbC%2Fd&n=1"},
 			map[string]any{"type": "Link", "href": "https://Media.Example.org/stream.m3u8", "mediaType": "application/x-mpegURL", "name": "seventh"},
-			map[string]any{"type": "Document", "url": u("/att/می\u200cخواهم"), "name": "eighth"}}})
+			map[string]any{"type": "Document", "url": u("/att/می\u200cخواهم"), "name": "eighth"},
+			/* media types that cannot be read: the kind of the attachment says what it is */
+			map[string]any{"type": "Image", "url": u("/att/badtype.jpg"), "mediaType": "jpeg", "name": "ninth"},
+			map[string]any{"type": "Video", "url": u("/att/badtype.mp4"), "mediaType": "/mp4", "name": "tenth"},
+			/* media types with characters that are rare in them but allowed */
+			map[string]any{"type": "Link", "href": u("/att/odd1"), "mediaType": "application/x-john's~format", "name": "eleventh"},
+			map[string]any{"type": "Link", "href": u("/att/odd2"), "mediaType": "image/x*y|z", "name": "twelfth"}}})
 	/* addresses of attachments are parsed and written out again (a blank becomes %20): the same address in the
 	   normal form of net/url, computed here from the document; media types as the document settles them */
 	truth = append(truth, verifTruth{verifNormal(u("/att/one two.png")), "image/png", "image", "png", true}, verifTruth{link: verifNormal(u("/att/doc?x=$(id)"))},
@@ -1165,7 +1171,10 @@ func verifHookWorld(w *verifWorld) (postURL string, actorURL string, truth []ver
 		verifTruth{verifNormal(u("/att/untyped doc")), "*/*", "*", "*", true},
 		verifTruth{verifNormal("https://CDN.Example.ORG/Videos/Clip.mp4?X-Sig=AbC%2Fd&n=1"), "*/*", "*", "*", true},
 		verifTruth{verifNormal("https://Media.Example.org/stream.m3u8"), "application/x-mpegURL", "application", "x-mpegURL", true},
-		verifTruth{verifNormal(u("/att/می\u200cخواهم")), "*/*", "*", "*", true})
+		verifTruth{verifNormal(u("/att/می\u200cخواهم")), "*/*", "*", "*", true},
+		verifTruth{verifNormal(u("/att/badtype.jpg")), "image/*", "image", "*", true}, verifTruth{verifNormal(u("/att/badtype.mp4")), "video/*", "video", "*", true},
+		verifTruth{verifNormal(u("/att/odd1")), "application/x-john's~format", "application", "x-john's~format", true},
+		verifTruth{verifNormal(u("/att/odd2")), "image/x*y|z", "image", "x*y|z", true})
 	w.put("/users/carol", map[string]any{"type": "Person", "name": "carol", "preferredUsername": "carol",
 		"icon": map[string]any{"type": "Image", "url": "https://IMG.Example.ORG/Avatars/Carol Icon.png", "mediaType": "Image/PNG"},
 		"image": []any{map[string]any{"type": "Image", "url": u("/media/banner-$(x).jpg")}, map[string]any{"type": "Link", "href": u("/media/small.gif"), "mediaType": "image/gif", "width": 1, "height": 1}}})
